@@ -499,7 +499,7 @@ class ModelBuilder:
                 if key in st.claims:
                     raise RuntimeError('same file twice')
                 hint['used'] = True
-                raise OSError(hint.get('errno', 'EIO'))
+                raise hint['cls']('injected')
             made = mb._setup_file(st, path)
         except Invalid:
             raise
@@ -579,6 +579,13 @@ class ModelBuilder:
             rec.exc = 'RuntimeError'
             self._append(rec)
             raise RuntimeError('same subbuild twice')
+        hint = mb.hints.get(('setup_fail', key))
+        if hint is not None and not hint.get('used'):
+            hint['used'] = True
+            rec.status = 'setup'
+            rec.exc = hint['cls'].__name__
+            self._append(rec)
+            raise hint['cls']('injected')
         served, res = mb._lookup(key, fname, args, kwargs, False)
         if served is not None:
             mb.st = st = res
